@@ -272,6 +272,16 @@ func (l *Listener) Connect(name string) *Pipe {
 	return p
 }
 
+// ConnectDropped: a connection that the peer has already abandoned when it is accepted.
+func (l *Listener) ConnectDropped(name string) *Pipe {
+	p := NewPipe(l.T, name)
+	l.T.NPipes++
+	p.Closed = true
+	close(p.closeq)
+	l.acceptq <- acc{p: p}
+	return p
+}
+
 // FailAccept makes the next Accept return err (e.g. a failed handshake).
 func (l *Listener) FailAccept(err error) { l.acceptq <- acc{err: err} }
 
